@@ -435,7 +435,10 @@ func (o *oracle) rebaseFold(w []string, pre, st *mstate, kc kase) {
 				continue
 			}
 			r := im.q(fmt.Sprintf("call dolt_cherry_pick('%s')", h))
-			if r.Err != nil && !strings.Contains(r.Err.Error(), "no changes were made") {
+			// a plan commit that is (or has become) empty contributes no data: rebase keeps / drops it by
+			// its empty-commit handling, a plain cherry-pick refuses it — skip it in the fold
+			if r.Err != nil && !strings.Contains(r.Err.Error(), "no changes were made") &&
+				!strings.Contains(r.Err.Error(), "cherry-pick commit is empty") {
 				o.rep.Violate("C31/rebase-fold/error", fmt.Sprintf("rebase succeeded but cherry-picking plan step %d fails: %v", i+1, r.Err), kc)
 				return
 			}
